@@ -74,10 +74,19 @@ def tokens_of(doc, ch, form):
         if w:
             toks.append(["ws", w])
 
+    path = []
+
     def rec(node):
         tag, val = node
         toks.append(["open", tag])
         if isinstance(val, str):
+            if ch.flag("r.cdata_markup", 0.06):
+                # element data that *quotes markup* inside a CDATA section: it must stay inert however the body
+                # is cut or damaged around it
+                chain = "".join(f"</{t}>" for t in [tag] + path[::-1])
+                val = ["<![CDATA[see " + chain + " end]]>",
+                       "<![CDATA[<OFX><" + tag + ">1</" + tag + "></OFX>]]>",
+                       "<![CDATA[</" + tag + "><" + tag + ">]]>"][ch.pick("r.cdata_markup.kind", 3)]
             toks.append(["text", val])
             close = form in ("v1c", "v2") or (form == "mixed" and ch.pick("r.close", 2))
             if close:
@@ -85,8 +94,10 @@ def tokens_of(doc, ch, form):
             ws()
         else:
             ws()
+            path.append(tag)
             for c in val:
                 rec(c)
+            path.pop()
             toks.append(["close", tag])
             ws()
     rec(doc)
